@@ -627,6 +627,53 @@ def _calls_outer_first(e: ast.AST) -> list[ast.Call]:
 # canonical printing
 
 
+_EQ_CONST = None
+
+
+def _atom_theory(atoms: list) -> list:
+    """Combinations of atom values that cannot occur (lists of (atom, value) that clash):
+         x == c1 and x == c2 (c1 != c2);  x == 'text' without isinstance(x, str) / type(x) == str;
+         type(x) == str without isinstance(x, str);  x is None together with any of those."""
+    import re
+    global _EQ_CONST
+    if _EQ_CONST is None:
+        _EQ_CONST = re.compile(r"^Eq\(('(?:[^'\\]|\\.)*'|-?\d+), (.+)\)$")
+    eqs: dict = {}
+    for a in atoms:
+        mm = _EQ_CONST.match(a)
+        if mm:
+            eqs.setdefault(mm.group(2), []).append((mm.group(1), a))
+    out = []
+    aset = set(atoms)
+    for x, lst in eqs.items():
+        for i in range(len(lst)):
+            for j in range(i + 1, len(lst)):
+                if lst[i][0] != lst[j][0]:
+                    out.append([(lst[i][1], True), (lst[j][1], True)])
+        for c, a in lst:
+            if c.startswith("'"):
+                for b in (f"isinstance({x}, str)", f"Eq(str, type({x}))"):
+                    if b in aset:
+                        out.append([(a, True), (b, False)])
+            for b in (f"Is({x}, None)", f"Is(None, {x})"):
+                if b in aset:
+                    out.append([(a, True), (b, True)])
+    for a in atoms:
+        if a.startswith("Eq(str, type(") and a.endswith("))"):
+            x = a[len("Eq(str, type("):-2]
+            if f"isinstance({x}, str)" in aset:
+                out.append([(a, True), (f"isinstance({x}, str)", False)])
+            for b in (f"Is({x}, None)", f"Is(None, {x})"):
+                if b in aset:
+                    out.append([(a, True), (b, True)])
+        if a.startswith("isinstance(") and a.endswith(", str)"):
+            x = a[len("isinstance("):-len(", str)")]
+            for b in (f"Is({x}, None)", f"Is(None, {x})"):
+                if b in aset:
+                    out.append([(a, True), (b, True)])
+    return out
+
+
 class Printer:
     def __init__(self, model: Optional[Model], params: Sequence[str], aliases: Optional[dict] = None, canonical: bool = False) -> None:
         self.model = model
@@ -819,11 +866,17 @@ class Printer:
         atoms = sorted(acc)
         if len(atoms) > self.MAX_ATOMS:
             return None
+        dropped: dict = {}
         while True:
             n = len(atoms)
             rows = []
+            theory = _atom_theory(atoms)
             for i in range(1 << n):
                 asg = {a: bool((i >> j) & 1) for j, a in enumerate(atoms)}
+                if any(all(asg[a] == v for a, v in clash) for clash in theory):
+                    rows.append(tuple(False for _ in bs))  # an impossible combination of atoms: don't care
+                    continue
+                asg.update(dropped)  # atoms nothing depends on: any fixed value
                 rows.append(tuple(self._evalb(b, asg) for b in bs))
             # drop atoms nothing depends on
             drop = None
@@ -834,6 +887,7 @@ class Printer:
             if drop is None:
                 break
             atoms.remove(drop)
+            dropped[drop] = False
         tabs = []
         for k in range(len(bs)):
             v = 0
